@@ -15,7 +15,7 @@ Connection.invalidate, error code 8s2b):
 * DBAPI connections older than the failure are never handed out again (generational, as
   Pool._invalidate documents; only the failed one if the listener disabled pool invalidation);
 * if a transaction was in progress every further execute / begin_nested / commit /
-  savepoint release raises PendingRollbackError *without touching the DBAPI* until
+  savepoint release raises PendingRollbackError *without sending anything to the DBAPI* until
   rollback(); afterwards the next execute runs on a NEW DBAPI connection;
 * no call other than close() is ever made on a connection on which a disconnect was
   raised, none on a closed one;
@@ -48,9 +48,11 @@ ASSUMPTIONS = [
     "whether autobegin had already happened when the very first statement of a transaction fails is not part of the contract: the model adopts the observed answer for that one bit",
     "savepoint handles are used in order (C23 covers misuse); single thread; default QueuePool(5, 10)",
     "a Connection whose close() raised is closed again (and finally dropped) by the harness",
+    "known finding excluded by construction and pinned: a disconnect raised by the autorollback that follows an ordinary error outside a transaction is surfaced with connection_invalidated=False",
     "Pool._invalidate is generational as its docstring states: a failure on a connection that predates the last pool-wide invalidation does not start a new one",
 ]
 
+SIG_NESTED = "C27/flag/connection_invalidated/disconnect-during-autorollback"
 _INJ = re.compile(r"injected (disconnect|error) at (\w+)#(\d+)")
 
 
@@ -101,6 +103,10 @@ class _Run:
         self.trace = []
         self.cls = set()
         self.nontrivial = False
+        self.excluded = []
+        self.may_close = set()  # connections the pool is entitled to close (model-derived)
+        self.close_pos = 0
+        self.inj_pos = 0
 
     def _on_error(self, ctx):
         if self.promote and not ctx.is_disconnect and "injected error" in str(ctx.original_exception):
@@ -117,6 +123,8 @@ class _Run:
         self.n_log = len(self.db.log)
         self.existing = {c.id for c in self.db.conns}
         self.open_before = set(F.open_ids(self.db))
+        self.bans.sync_dead_and_closed()
+        self.banned_before = dict(self.bans.reason)
 
     def new_faults(self):
         return self.db.injected[self.n_inj :]
@@ -129,6 +137,14 @@ class _Run:
 
     def run(self, c, label, fn):
         """returns (exception or None)"""
+        if c.txn is None and not c.closed and not self.case.get("pinned"):
+            # known finding: ordinary error before autobegin -> autorollback -> disconnect on that rollback is
+            # surfaced with connection_invalidated=False.  Keep the second fault away.
+            nc, nr = self.db.counts["cursor"], self.db.counts["rollback"]
+            first = self.db.plan.get(("cursor", nc))
+            if first and not self.eff_disc(first) and self.eff_disc(self.db.plan.get(("rollback", nr), "")):
+                del self.db.plan[("rollback", nr)]
+                self.excluded.append("disconnect on the autorollback that follows an ordinary pre-autobegin error (known finding: connection_invalidated flag lost)")
         self.begin_op()
         try:
             fn()
@@ -147,10 +163,18 @@ class _Run:
         if e is None:
             raise Violation(f"C27/silent-continuation/{label}", f"{label} succeeded although the transaction was lost / failed and rollback() has not been called; {self.T()}",
                             observed="returned normally", expected="PendingRollbackError")
+        if isinstance(e, exc.DBAPIError) and not c.invalid:
+            f = self.fault_of(e)
+            if f and f[0] == "cursor":
+                # the cursor is created (on the still-valid connection) before the state check: a fault there surfaces as itself
+                self.dbapi_failure(c, label, e, False)
+                self.cls.add("blocked-op:cursor-fault")
+                return
         if not isinstance(e, exc.PendingRollbackError):
             raise Violation(f"C27/blocked/{label}/wrong-error", f"{label} in need-rollback state raised {type(e).__name__}: {str(e)[:200]}; {self.T()}",
                             observed=type(e).__name__, expected="PendingRollbackError")
-        calls = [x for x in self.new_log() if x[1] not in ("close",)]
+        # (a cursor may be created before the state check on a still-valid connection; nothing may be sent)
+        calls = [x for x in self.new_log() if x[1] in ("execute", "commit", "rollback", "connect", "ping")]
         if calls:
             raise Violation(f"C27/blocked/{label}/dbapi-touched", f"{label} raised PendingRollbackError but still made DBAPI calls {calls[:4]}; {self.T()}", observed=[list(map(str, x)) for x in calls[:4]])
         self.cls.add("blocked-op-raised")
@@ -169,22 +193,22 @@ class _Run:
         site, k, kind = f
         disc = self.eff_disc(kind)
         self.cls.add(f"fired:{site}:{'disc' if disc else 'err'}")
+        nf = self.new_faults()
+        if disc and not e.connection_invalidated and site == "rollback" and len(nf) >= 2 and not self.eff_disc(nf[0][3]) and label != "rollback":
+            raise Violation(SIG_NESTED, f"{label}: ordinary error at {nf[0][1]}#{nf[0][2]} outside a transaction triggered the autorollback, whose rollback#{k} hit a disconnect: the "
+                            f"Connection was invalidated (invalidated={c.obj.invalidated}) but the surfaced DBAPIError has connection_invalidated=False; {self.T()}",
+                            observed=False, expected=True)
         if bool(e.connection_invalidated) != disc:
             raise Violation(f"C27/flag/connection_invalidated/{site}", f"{label}: DBAPIError.connection_invalidated={e.connection_invalidated} for a {kind} at {site}#{k} "
                             f"(listener={self.cfg['listener']}); {self.T()}", observed=e.connection_invalidated, expected=disc)
+        hit = next((x[0] for x in self.new_faults() if x[1] == site and x[2] == k), None)
+        if pre_invalid and site != "connect" and hit is not None and not c.closed:
+            # the Connection had transparently re-acquired a DBAPI connection before this error
+            self.cls.add("transparent-reconnect")
+            c.invalid = False
+            self.note_acquired(c, hit, label, as_of_op_start=True)
         if disc and site != "connect":
-            hit = next((x[0] for x in self.new_faults() if x[1] == site and x[2] == k), None)
-            if self.nopool:
-                self.bans.ban(hit, "a disconnect was detected on it (pool invalidation disabled by listener)")
-                self.cls.add("disconnect-nopool")
-            elif hit in self.generation_banned:
-                self.bans.ban(hit, "a disconnect was detected on it")
-                self.cls.add("pool-wide-invalidation:stale-generation")
-            else:
-                for i in self.existing:
-                    self.bans.ban(i, "it is older than a disconnect detected by a Connection (pool-wide invalidation)")
-                    self.generation_banned.add(i)
-                self.cls.add("pool-wide-invalidation")
+            self.apply_disconnect_bans(hit)
             if not c.closed:
                 c.invalid = True
                 c.cid = None
@@ -199,10 +223,29 @@ class _Run:
                 raise Violation(f"C27/non-disconnect/{label}/pool-touched", f"{label}: ordinary error at {site}#{k} changed the open connections {sorted(self.open_before)} -> {sorted(now_open)}; {self.T()}")
         return disc
 
+    def apply_disconnect_bans(self, hit):
+        self.may_close.add(hit)
+        if not self.nopool and hit not in self.generation_banned:
+            self.may_close.update(self.existing)
+        if self.nopool:
+            self.bans.ban(hit, "a disconnect was detected on it (pool invalidation disabled by listener)")
+            self.cls.add("disconnect-nopool")
+        elif hit in self.generation_banned:
+            self.bans.ban(hit, "a disconnect was detected on it")
+            self.cls.add("pool-wide-invalidation:stale-generation")
+        else:
+            for i in self.existing:
+                self.bans.ban(i, "it is older than a disconnect detected by a Connection (pool-wide invalidation)")
+                self.generation_banned.add(i)
+            self.cls.add("pool-wide-invalidation")
+
     def ping_faults_transparent(self):
         """pre-ping disconnects consumed inside a successful checkout: pool-wide ban"""
         for cid, site, k, kind in self.new_faults():
+            if site == "ping" and self.eff_disc(kind):
+                self.may_close.add(cid)
             if site == "ping" and self.eff_disc(kind) and cid not in self.generation_banned:
+                self.may_close.update(self.existing)
                 for i in self.existing:
                     self.bans.ban(i, "it is older than a failed pre-ping (pool-wide invalidation)")
                     self.generation_banned.add(i)
@@ -214,11 +257,18 @@ class _Run:
 
     def acquired(self, c, label):
         """the Connection now sits on a (possibly new) DBAPI connection"""
-        cid = c.obj.connection.dbapi_connection.id
+        return self.note_acquired(c, c.obj.connection.dbapi_connection.id, label)
+
+    def note_acquired(self, c, cid, label, as_of_op_start=False):
         if cid != c.cid:
             if cid in c.cids:
                 raise Violation("C27/reconnect/same-dbapi-connection", f"{label}: Connection went back to DBAPI connection {cid} it had before; {self.T()}", observed=cid)
-            self.bans.check_handed_out("C27", cid, f"{label}; {self.T()}")
+            if as_of_op_start:
+                # the connection has failed (and may be closed) by now: judge it by what was known when it was handed out
+                if cid in self.banned_before:
+                    raise Violation(f"C27/reuse/{F._slug(self.banned_before[cid])}", f"{label}: DBAPI connection {cid} was handed out although {self.banned_before[cid]}; {self.T()}", observed=cid)
+            else:
+                self.bans.check_handed_out("C27", cid, f"{label}; {self.T()}")
             for o in self.conns:
                 if o is not c and not o.closed and o.cid == cid:
                     raise Violation("C27/reuse/held-by-another-connection", f"{label}: DBAPI connection {cid} is in use by the other Connection; {self.T()}")
@@ -452,10 +502,9 @@ class _Run:
             F.classify_error("C27", e, f"close; {self.T()}")
             self.cls.add("close-raised")
             f = self.fault_of(e)
-            if f and self.eff_disc(f[2]) and not self.nopool:
-                for i in self.existing:
-                    if i not in self.generation_banned:
-                        self.bans.ban(i, "it is older than a disconnect detected by a Connection (pool-wide invalidation)")
+            if f and self.eff_disc(f[2]) and f[0] != "connect":
+                hit = next((x[0] for x in self.new_faults() if x[1] == f[0] and x[2] == f[1]), None)
+                self.apply_disconnect_bans(hit)
         else:
             c.obj = None
             gc.collect()
@@ -480,6 +529,16 @@ class _Run:
                 raise Violation("C27/state/in_transaction", f"after {after}: conn{i}.in_transaction()={o.in_transaction()} model txn={c.txn}; {self.T()}", observed=o.in_transaction(), expected=exp_in)
             if (o.get_transaction() is not None) != (c.txn is not None):
                 raise Violation("C27/state/get_transaction", f"after {after}: conn{i}.get_transaction()={o.get_transaction()} model txn={c.txn}; {self.T()}")
+        for f in self.db.injected[self.inj_pos :]:
+            self.may_close.add(f[0])  # a connection on which any fault fired may be discarded (e.g. failed reset-on-return)
+        self.inj_pos = len(self.db.injected)
+        log = self.db.log
+        while self.close_pos < len(log):
+            cid, site, _ = log[self.close_pos]
+            self.close_pos += 1
+            if site == "close" and cid not in self.may_close:
+                raise Violation("C27/pool/healthy-connection-closed", f"after {after}: close() on DBAPI connection {cid} although no disconnect / invalidation concerns it "
+                                f"(listener={self.cfg['listener']}); {self.T()}", observed=cid)
         bad = [x for x in self.db.use_of_dead if x[1] != "close"]
         if bad:
             raise Violation(f"C27/dead-connection-used/{bad[0][1]}", f"after {after}: DBAPI call {bad[0][1]} on connection {bad[0][0]} after a disconnect was raised on it; {self.T()}",
@@ -552,6 +611,8 @@ def _run_case(case, ctx, enum=False):
                 if nontrivial:
                     classes.add("NONTRIVIAL")
                 ctx.note({"cfg": case["cfg"], "ops": case["ops"], "plan": case["plan"]}, nontrivial, classes=sorted(classes))
+                for r in run.excluded:
+                    ctx.exclude(r)
     finally:
         for c in run.conns:
             c.obj = None
@@ -578,27 +639,29 @@ _cfg = st.builds(
     st.sampled_from([1, 2, 2]),
 )
 _ci = st.integers(0, 1)
-_opk = st.sampled_from(["exec", "exec", "exec", "exec", "begin", "sp", "sp", "sp_commit", "sp_rollback", "commit", "commit", "rollback", "rollback", "close", "connect"])
-_K = st.sampled_from([0, 0, 1, 1, 2, 3, 4, 5])
+_opk = st.sampled_from(["exec"] * 7 + ["sp", "sp", "sp_commit", "sp_rollback", "commit", "commit", "rollback", "rollback", "rollback", "begin", "close", "connect"])
 
 
 @st.composite
 def _cases(draw):
     cfg = draw(_cfg)
-    sites = ["cursor", "execute", "execute", "execute", "commit", "commit", "rollback", "rollback", "connect", "close"]
+    sites = ["cursor", "execute", "execute", "execute", "commit", "commit", "rollback", "connect", "close"]
     if cfg["pre_ping"]:
         sites.append("ping")
     plan, seen = [], set()
-    for _ in range(draw(st.integers(1, 4))):
+    # first fault: a disconnect where a transaction is likely to be open
+    site = draw(st.sampled_from(["execute", "execute", "execute", "cursor", "commit", "rollback"]))
+    k = draw(st.sampled_from([0, 1, 1, 2, 2, 3, 4])) if site in ("execute", "cursor") else draw(st.integers(0, 1))
+    plan.append([site, k, draw(st.sampled_from(["disconnect", "disconnect", "disconnect", "error"]))])
+    seen.add((site, k))
+    for _ in range(draw(st.integers(0, 3))):
         site = draw(st.sampled_from(sites))
-        k = draw(_K)
-        if site in ("connect", "ping", "close", "commit", "rollback"):
-            k = min(k, 2)
+        k = draw(st.integers(0, 7)) if site in ("execute", "cursor") else draw(st.integers(0, 2))
         if (site, k) in seen:
             continue
         seen.add((site, k))
-        plan.append([site, k, draw(st.sampled_from(["disconnect", "disconnect", "error"]))])
-    ops = [[draw(_opk), draw(_ci)] for _ in range(draw(st.integers(3, 20)))]
+        plan.append([site, k, draw(st.sampled_from(["disconnect", "error"]))])
+    ops = [[draw(_opk), draw(st.sampled_from([0, 0, 0, 1]))] for _ in range(draw(st.integers(8, 20)))]
     return {"cfg": cfg, "ops": ops, "plan": plan}
 
 
